@@ -160,7 +160,7 @@ def check_time(rep, fl):
         cb = facts.closure_body(e[2][2][1])
         ce = in_parent_terms(facts, cb, return_expr(cb))
         el = V(cb.local_name.get(2, "arg2"))
-        ok = is_call(ce, "PartialOrd::ge") and ce[2][0] == el and ce[2][1] == d
+        ok = is_call(ce, "PartialOrd::le") and ce[2][1] == el and ce[2][0] == d
     rep.check(ok, "R03.3", fl, b, "is_expired", "is_expired() == (elapsed(created_at) >= d), false on a clock error", "is_expired() is %s" % show(e))
     # is_zero
     b = facts.body(TIME + "::is_zero")
@@ -188,12 +188,12 @@ def check_time(rep, fl):
         elif e[0] in ("cstr", "named") and "ZERO" in str(e):
             kinds.add("zero")
             for s in sts:
-                okall = okall and feval(zero, s) is False and any(is_call(a, "PartialOrd::ge") and a[2][1] == d and is_call(strip_unwrap(a[2][0]), "SystemTime::elapsed") and v for a, v in s.lits)
+                okall = okall and feval(zero, s) is False and any(is_call(a, "PartialOrd::le") and a[2][0] == d and is_call(strip_unwrap(a[2][1]), "SystemTime::elapsed") and v for a, v in s.lits)
         elif is_call(e, "Sub::sub"):
             kinds.add("sub")
             okall = okall and e[2][0] == d and is_call(strip_unwrap(e[2][1]), "SystemTime::elapsed") and norm(strip_unwrap(e[2][1])[2][0]) == created
             for s in sts:
-                okall = okall and feval(zero, s) is False and any(is_call(a, "PartialOrd::ge") and a[2][1] == d and not v for a, v in s.lits)
+                okall = okall and feval(zero, s) is False and any(is_call(a, "PartialOrd::le") and a[2][0] == d and not v for a, v in s.lits)
         else:
             okall = False
     rep.check(okall and kinds == {"max", "zero", "sub"}, "R03.3", fl, b, "get_ttl",
@@ -526,6 +526,30 @@ def check_em_update(rep, fl):
                         {norm(b.expand(atom[2])), norm(b.expand(atom[3]))} == {call("ttl::storage_bucket", old), call("ttl::storage_bucket", new)}:
                     moved = must_pass_through(b, [x for x, _, _ in inner_ins], from_bi=tgt)
     rep.check(moved, "R05.3", fl, b, "move on every path", "when the buckets differ the key is re-filed on every path", "a path with differing buckets does not re-file the key")
+    # a return that has not filed the key is justified only when there is nothing to file (the new
+    # deadline is zero) or when the key is already in place: it *was* filed (old deadline non-zero)
+    # under the same bucket.  An entry without TTL is filed nowhere, so equal bucket numbers mean
+    # nothing for it.
+    import props_cache
+    ins_terms = [t for _, t, _ in inner_ins]
+
+    def lab(bi, t):
+        return "file" if any(t is x for x in ins_terms) else None
+    outs, at2 = props_cache.count_paths(b, lab)
+    bad = []
+    for s_, cnt in outs:
+        if cnt.get("file"):
+            continue
+        es = expand_state(b, s_, hist=True)
+        new_zero = any(is_call(a, "Time::is_zero") and norm(a[2][0]) == new and v for a, v in es.lits)
+        old_nonzero = any(is_call(a, "Time::is_zero") and norm(a[2][0]) == old and v is False for a, v in es.lits)
+        same = any(a[0] == "bin" and a[1] == "Eq" and v and {a[2], a[3]} == {call("ttl::storage_bucket", old), call("ttl::storage_bucket", new)} for a, v in es.lits)
+        errp = any(a[0] == "variant" and a[2] == "Break" and v for a, v in es.lits)
+        if not (new_zero or (old_nonzero and same) or errp):
+            bad.append(show_state(s_))
+    rep.check(not bad, "R05.3", fl, b, "unfiled return only when in place", "try_update returns without filing the key only when the new deadline is zero or the key was already filed under the same bucket",
+              "try_update can return without filing a key that now has a deadline although the key was filed nowhere before (the entry had no TTL and its creation second + 1 happens to equal the new bucket): "
+              "the entry expires but is never reclaimed (path: %s)" % (bad[0] if bad else ""))
 
 
 def check_em_cleanup(rep, fl):
@@ -683,16 +707,52 @@ def check_tick(rep, fl):
     bodies = descendants(facts, h)
     sw = [(x, c) for x in bodies for c in calls_to(x, fl.cleanup)]
     rep.check(len(sw) == 1, "R05.7", fl, h, "calls sweeper", "handle_cleanup_event runs the sweeper", "handle_cleanup_event does not call %s" % short(fl.cleanup))
-    ev = [(x, c) for x in bodies for c in calls_to(x, "CacheCallback::on_evict")]
-    pe = [(x, c) for x in bodies for c in calls_to(x, fl.processor + "::prepare_evict")]
-    ok = len(ev) == 1 and len(pe) == 1 and ev[0][0] is pe[0][0]
+    # on the flattened handler (`for_each` closure or `for` loop alike): one iteration over the swept
+    # items, each element handed to prepare_evict and then to callback.on_evict, once
+    hf = facts.flat(h)
+    ev = calls_to(hf, "CacheCallback::on_evict")
+    pe = calls_to(hf, fl.processor + "::prepare_evict")
+    ok = len(ev) == 1 and len(pe) == 1
     if ok:
-        x = ev[0][0]
-        victim = V(x.local_name.get(2, "arg2"))
-        ok = x.is_closure and norm(x.call_args(ev[0][1][1])[1]) == victim and norm(x.call_args(pe[0][1][1])[1]) == victim and must_pass_through(x, [ev[0][1][0]]) \
-            and block_dominates(x, pe[0][1][0], ev[0][1][0]) and not x.in_loop(ev[0][1][0])
-        p = closure_passed_to(facts, x)
-        ok = ok and p is not None and callee_matches(p[0].callee_of(p[2]), "Iterator::for_each")
+        ebi, et = ev[0]
+        pbi, pt = pe[0]
+        nexts = [(bi, t) for bi, t in hf.calls() if callee_matches(hf.callee_of(t), "Iterator::next") and ebi in hf.reachable(bi) and bi in hf.reachable(ebi)]
+        ok = len(nexts) == 1
+    if ok:
+        nbi, nt = nexts[0]
+        elem = ("field", ("downcast", norm(hf.call_expr(nt, True)), "Some"), "0")
+
+        def is_elem(e):
+            e = norm(e)
+            if e == elem or norm(hf.expand(e)) == elem:
+                return True
+            if e[0] == "var":
+                ds = var_def_exprs(hf, e, True)
+                return bool(ds) and all(d == elem for d in ds)
+            return False
+        some = None
+        for b2 in hf.succs(nbi):
+            for tgt, atom, pol in edge_literals(hf, b2):
+                if atom is not None and atom[0] == "variant" and atom[2] == "Some" and pol:
+                    some = tgt
+        src = norm(hf.expand(norm(hf.call_args(nt)[0])))
+        from_sweeper = any(is_call(c, fl.cleanup.split("::")[-1]) for c in calls_in(src))
+        if not from_sweeper:
+            for x in subexprs(src):
+                if x[0] in ("var", "tmp"):
+                    l = hf.name_local.get(x[1]) if x[0] == "var" else x[1]
+                    for d in (hf.defs.get(l, []) if isinstance(l, int) else []):
+                        if any(is_call(c, fl.cleanup.split("::")[-1]) for c in calls_in(norm(hf.def_expr(d[0], d[1], True)))):
+                            from_sweeper = True
+        ok = some is not None and is_elem(hf.call_args(et)[1]) and is_elem(hf.call_args(pt)[1]) and from_sweeper \
+            and must_pass_through(hf, [ebi], from_bi=some, exits=[nbi]) and must_pass_through(hf, [pbi], from_bi=some, exits=[ebi])
+        if ok:
+            # once per element: on_evict is not on a cycle that avoids the next() call
+            cut = [(p_, nbi) for p_ in hf.preds(nbi)]
+            again = set()
+            for s2 in hf.succs(ebi):
+                again |= hf.reachable(s2, removed_edges=cut)
+            ok = ebi not in again
     rep.check(ok, "R05.7", fl, h, "on_evict per item", "every swept item goes through prepare_evict and callback.on_evict exactly once",
               "swept items are not handed to on_evict exactly once each")
     sp = fl.proc_fn("spawn")
